@@ -578,6 +578,114 @@ func run(t *core.T, initIdx int, path []int) (string, bool) {
 	return e.m.key(), true
 }
 
+// long histories ------------------------------------------------------------------
+//
+// The BFS covers every history up to a small depth; counters, tables and free lists inside the
+// container turn over after hundreds or thousands of operations. A long history is a short
+// period of operations repeated until each of them has run more than `reps` times, observed
+// (everything observe compares) after every single step.
+
+func opIndex(name string) int {
+	for i, o := range ops {
+		if o.name == name {
+			return i
+		}
+	}
+	panic("no op " + name)
+}
+
+func longPeriods(tier string) [][]int {
+	var out [][]int
+	add0, rm0 := 0, len(opIDs)*int(nKinds)               // Add(id0, kind0), Remove(id0)
+	add1, rm1 := int(nKinds)+1, len(opIDs)*int(nKinds)+1 // Add(id1, kind1), Remove(id1)
+	out = append(out,
+		[]int{add0, rm0},
+		[]int{add0, add1, rm0, rm1},
+		[]int{add0, add1, rm1, rm0},
+		[]int{add0, rm0, rm0},
+		[]int{add0, add0 + 1},
+		[]int{add0, rm1},
+	)
+	for _, n := range []string{"MarshalCedar->NewPolicySetFromBytes(f.cedar)", "MarshalJSON->UnmarshalJSON(fresh)", "MarshalJSON->UnmarshalJSON(self)", "copy=Map()", "copy=maps.Collect(All())", "seq=All() kept for later", "js,txt=MarshalJSON(),MarshalCedar() kept for later"} {
+		out = append(out, []int{add0, opIndex(n), rm0}, []int{add0, rm0, opIndex(n)})
+	}
+	out = append(out, []int{add0, opIndex("copy=Map()"), rm0, opIndex("mutate(copy)")})
+	if tier == "thorough" {
+		// every ordered pair of operations, alternated
+		for i := range ops {
+			for j := range ops {
+				if i != j {
+					out = append(out, []int{i, j})
+				}
+			}
+		}
+	}
+	return out
+}
+
+func runLong(t *core.T, initIdx int, period []int, reps int) {
+	e := &exec{t: t}
+	var head string
+	if initIdx == 0 {
+		e.ps = cedar.NewPolicySet()
+		e.m.set = map[cedar.PolicyID]mpol{}
+		head = "NewPolicySet()"
+	} else {
+		doc, want := initDoc(initIdx - 1)
+		ps, err := cedar.NewPolicySetFromBytes("init.cedar", []byte(doc))
+		if err != nil {
+			t.Fail("harness-init-doc", doc, "parses", err.Error())
+			return
+		}
+		e.ps = ps
+		e.m.set = want
+		head = fmt.Sprintf("NewPolicySetFromBytes(init.cedar, %q)", doc)
+	}
+	var names []string
+	for _, oi := range period {
+		names = append(names, ops[oi].name)
+	}
+	for r := 0; r < reps; r++ {
+		for k, oi := range period {
+			o := ops[oi]
+			e.path = append(e.path, oi)
+			e.desc = []string{head, fmt.Sprintf("then the period [%s] %d times, then its first %d operation(s)", strings.Join(names, " ; "), r, k+1)}
+			e.apply(o)
+			if !e.bad {
+				e.observe(strings.SplitN(o.name, "(", 2)[0])
+			}
+			if e.bad {
+				return
+			}
+			t.AddTrans(1)
+		}
+	}
+	t.AddStates(int64(reps * len(period)))
+}
+
+func longHistories(tier string) *core.Family {
+	periods := longPeriods(tier)
+	nHand := len(longPeriods("quick"))
+	reps := 1100
+	inits := []int{0, 3}
+	return &core.Family{
+		Name: "long-histories",
+		Desc: fmt.Sprintf("%d periods of 2-4 operations (add/remove cycles on one and two ids, replacement, failed removes, each reload / copy / kept-sequence operation inside an add/remove cycle%s), each repeated %d times from %d initial states, every observable compared with the model after every step", len(periods), map[bool]string{true: "; every ordered pair of operations alternated", false: ""}[tier == "thorough"], reps, len(inits)),
+		N:    int64(len(periods) * len(inits)),
+		Run: func(t *core.T, i int64) {
+			if canonErr != nil {
+				return
+			}
+			p := periods[int(i)/len(inits)]
+			if int(i)/len(inits) >= nHand && int(i)%len(inits) != 0 {
+				return // the generated pairs run from the empty set only
+			}
+			runLong(t, inits[int(i)%len(inits)], p, reps)
+			t.Nontrivial()
+		},
+	}
+}
+
 func Check() *core.Check {
 	return &core.Check{
 		ID:    "C20",
@@ -596,7 +704,7 @@ func Check() *core.Check {
 			if tier == "thorough" {
 				depth = 6
 			}
-			return []*core.Family{{
+			return []*core.Family{longHistories(tier), {
 				Name:   "history-bfs",
 				Desc:   fmt.Sprintf("BFS depth<=%d over %d operations from %d initial states (empty set; documents of 0..12 policies)", depth, len(ops), nInits),
 				N:      nInits,
